@@ -116,7 +116,7 @@ def btcdeb_cmd(draw):
         txh, inh = c['tx'].ser().hex(), c['fund'].ser().hex()
         if kind == 'spend-mutated':
             which = draw(st.sampled_from(['tx', 'txin', 'both']))
-            mut = draw(st.sampled_from(['truncate', 'byte', 'vout-oob', 'vout-oob', 'vout-oob', 'count', 'empty', 'odd-hex', 'nonhex', 'witness-drop-all', 'swap']))
+            mut = draw(st.sampled_from(['truncate', 'byte', 'vout-oob', 'vout-oob', 'vout-oob', 'other-vout-oob', 'other-vout-oob', 'count', 'empty', 'odd-hex', 'nonhex', 'witness-drop-all', 'swap']))
             def m(h):
                 b = bytearray(bytes.fromhex(h))
                 if mut == 'truncate':
@@ -136,6 +136,18 @@ def btcdeb_cmd(draw):
                 return h
             if mut == 'vout-oob':
                 c['tx'].vin[c['idx']]['n'] = draw(st.sampled_from([len(c['fund'].vout), len(c['fund'].vout) + 1, len(c['fund'].vout) + 6, 0xffffffff, 0x00ffffff, 1000]))
+                txh = c['tx'].ser().hex()
+            elif mut == 'other-vout-oob':
+                # ANOTHER input of the spending transaction (not the debugged one) names the funding transaction with an output index at / past its end:
+                # collecting "all spent outputs" must not index by it
+                nv = len(c['fund'].vout)
+                oob = draw(st.sampled_from([nv, nv, nv + 1, 0xffffffff]))
+                others = [i for i in range(len(c['tx'].vin)) if i != c['idx']]
+                if others:
+                    v = c['tx'].vin[draw(st.sampled_from(others))]
+                    v['txid'], v['n'] = c['fund'].txid(), oob
+                else:
+                    c['tx'].vin.append(dict(txid=c['fund'].txid(), n=oob, script=b'', seq=0xffffffff, wit=[]))
                 txh = c['tx'].ser().hex()
             elif mut == 'witness-drop-all':
                 for v in c['tx'].vin:
